@@ -53,10 +53,11 @@ def rewrite_sink(body, u):
         op = m.end() - 1
         cl = match_close(mask, op)
         inner = body[op + 1:cl]
-        mm = re.match(r'\s*writer\s*,\s*&(.*)\.to_be_bytes\(\)\s*$', inner, re.S)
+        mm = re.match(r'\s*writer\s*,\s*&(.*)\.to_(be|le)_bytes\(\)\s*$', inner, re.S)
         if not mm:
             raise CutError('write_all call of unexpected shape: ' + inner[:80])
-        rep = f'vw_write(writer, {mm.group(1).strip()})' + '\n' * body[m.start():cl + 1].count('\n')
+        fnm = 'vw_write' if mm.group(2) == 'be' else 'vw_write_le'
+        rep = f'{fnm}(writer, {mm.group(1).strip()})' + '\n' * body[m.start():cl + 1].count('\n')
         body = body[:m.start()] + rep + body[cl + 1:]
         n += 1
     u.drop('std::io::Write::write_all(writer, &x.to_be_bytes())? -> vw_write(writer, x)? (trusted sink model)', n)
